@@ -151,4 +151,27 @@ example :
   · exact ⟨_, Reach.step (Reach.refl _) eB, ReachPlus.step (ReachPlus.one eC) eB'⟩
   · exact ⟨_, Reach.step (Reach.step (Reach.refl _) eB) eC, by decide⟩
 
+/-- **reads follow the current stack of sources**: in any history of collapses, `add_config_source` calls and
+reloads, every collapse returns exactly what collapsing from scratch over the sources configured at that moment returns
+(so, by `collapse_nearest_definition`, the nearest definitions w.r.t. the *current* sources) — the rendered-section cache
+is never stale. -/
+theorem history_collapse_is_current (s : List Source) (pre post : List MOp) (n : Name) :
+    (Mgr.run (Mgr.init s) (pre ++ MOp.collapse n :: post)).2[pre.length]?
+      = some (some (collapse (buildLookup (sourcesAfter s pre)) n)) := by
+  rw [mrun_append]
+  have hl := mrun_length (Mgr.init s) pre
+  rw [List.getElem?_append_right (by omega)]
+  simp only [hl, Nat.sub_self, Mgr.run, List.getElem?_cons_zero]
+  have hinv := minv_run pre _ (minv_init s)
+  rw [step_collapse_of_inv _ hinv, hinv.1, run_sources]
+  rfl
+
+/-- non-vacuity: a section collapsed before a source that redefines its base is added must change afterwards -/
+example :
+    let s0 : List Source := [[("A", ⟨some ["B"], false, [("class", "x")]⟩), ("B", ⟨none, false, [("k", "old")]⟩)]]
+    let add : Source := [("B", ⟨none, false, [("k", "new")]⟩)]
+    sourcesAfter s0 [.collapse "A", .addSource add] = s0 ++ [add] ∧
+    Spec.stackOf (s0 ++ [add]) "B" = [⟨none, false, [("k", "new")]⟩, ⟨none, false, [("k", "old")]⟩] := by
+  decide
+
 end Pkgcore.C43
